@@ -15,7 +15,7 @@
 (*  PerOctetPadded (C05): a complete PER encoding is a whole number of      *)
 (*                 octets, at least one                                    *)
 (***************************************************************************)
-EXTENDS TypeGen, Profile, X691Reader, X696Reader
+EXTENDS TypeGen, Profile, X691Reader, X696Reader, X690ValueReader
 
 Vals == Case.vals
 TheEnv == Case.env
@@ -87,6 +87,14 @@ OerPrefixFree ==
      Admits(TheEnv, gT, Vals[i]) =>
        LET octs == OerEncode(TheEnv, gT, Vals[i], {}) IN
        \A k \in PrefixPoints(Len(octs)) : k < Len(octs) => ~OerDecode(TheEnv, gT, SubSeq(octs, 1, k)).ok
+
+\* (C03 on the model) "the output is accepted by any conforming BER/DER reader with the same meaning":
+\* the independently written BER value reader reads DerEnc(T, v) back as v
+BerReaderInverts ==
+  \A i \in 1..Len(Vals) :
+     Admits(TheEnv, gT, Vals[i]) =>
+       LET r == BerDecode(TheEnv, gT, DerEnc(TheEnv, gT, Vals[i], {})) IN
+       r.ok /\ BMatches(TheEnv, gT, Vals[i], r.v)
 
 PerOctetPadded ==
   \A i \in 1..Len(Vals) :
